@@ -75,3 +75,28 @@ def runLines : P Verdict := do
   pure { corr, oracle := orc, nontriv := true, cls := s!"{kinds}:{res}" }
 
 end Drv.Lab
+
+namespace Drv.Det
+open Drv
+
+def runDet : P Verdict := do
+  let kind ← next; let k ← nat
+  let rep ← boolTok; let cl ← boolTok; let thr ← boolTok; let il ← boolTok; let same ← boolTok
+  let overlaps ← nat
+  let orc := firstSome [
+    check rep "repeating a synthesis call gave a different waveform",
+    check cl "a cloned engine gave a different waveform",
+    check thr s!"concurrent calls from {k} threads on one shared engine gave a waveform different from the sequential one",
+    check il "interleaving live generators and syntheses changed an output",
+    check same "a synthesis call changed the engine's observable settings" ]
+  pure { corr := none, oracle := orc, nontriv := overlaps > 0, cls := s!"{kind}:k{k}" }
+
+def runHist : P Verdict := do
+  let kind ← next
+  let g ← boolTok; let w ← boolTok
+  let orc := firstSome [
+    check g "two setter histories ending in the same values leave different settings",
+    check w "two setter histories ending in the same values synthesize differently" ]
+  pure { corr := none, oracle := orc, nontriv := true, cls := s!"hist:{kind}" }
+
+end Drv.Det
